@@ -54,6 +54,14 @@ type monitors struct {
 	healing  bool
 	checkedLeaders map[string]bool
 	ackChecks int64
+
+	// C02: when each term's fencing first reached any node, and when each node was told to lead
+	fenceStamp map[int64]map[int64]int64 // shard -> term -> history stamp of the first NewTerm delivery
+	leadAt     map[string]map[int64][]leadEv
+}
+
+type leadEv struct {
+	stamp, term int64
 }
 
 func newMonitors(c *chaos) *monitors {
@@ -61,7 +69,8 @@ func newMonitors(c *chaos) *monitors {
 		ntReq: map[string]*proto.NewTermRequest{}, ntPreTerm: map[string]int64{}, ntResp: map[int64]map[int64]map[string]*proto.EntryId{},
 		leadersSeen: map[int64]map[int64]string{}, nodeTerm: map[string]map[int64]int64{}, deleted: map[string]map[int64]bool{}, blReq: map[string]*proto.BecomeLeaderRequest{}, blResp: map[string]map[string]*proto.EntryId{},
 		fences: map[string]map[int64]*fenceInfo{}, streamTerm: map[string]int64{}, streamShard: map[string]int64{},
-		tagTerm: map[string]int64{}, checkedLeaders: map[string]bool{}}
+		tagTerm: map[string]int64{}, checkedLeaders: map[string]bool{},
+		fenceStamp: map[int64]map[int64]int64{}, leadAt: map[string]map[int64][]leadEv{}}
 }
 
 func (m *monitors) want(p string) bool {
@@ -79,6 +88,10 @@ func (m *monitors) swapNote() string {
 }
 
 func (m *monitors) fail(prop, class, f string, a ...any) {
+	if m.c.r.Opts["monitors"] == "off" { // sensitivity experiments: let the history oracle decide alone
+		m.c.r.Count("monitor_alarms_suppressed", 1)
+		return
+	}
 	f += m.swapNote()
 	// a monitor of another property than the one under check still reports (it is a real
 	// violation), but under its own class prefix so that known findings stay specific
@@ -129,6 +142,12 @@ func (m *monitors) tap(t *TapMsg) {
 			return
 		}
 		m.ntReq[t.CallID] = req
+		if m.fenceStamp[req.Shard] == nil {
+			m.fenceStamp[req.Shard] = map[int64]int64{}
+		}
+		if _, ok := m.fenceStamp[req.Shard][req.Term]; !ok {
+			m.fenceStamp[req.Shard][req.Term] = m.c.Stamp()
+		}
 		// the node's term right before it handles this request
 		m.ntPreTerm[t.CallID] = -2
 		if sn := m.c.w.Node(t.Dst); sn != nil && !sn.EP.Dead() && sn.Server != nil {
@@ -169,6 +188,10 @@ func (m *monitors) tap(t *TapMsg) {
 			return
 		}
 		m.blReq[t.CallID] = req
+		if m.leadAt[t.Dst] == nil {
+			m.leadAt[t.Dst] = map[int64][]leadEv{}
+		}
+		m.leadAt[t.Dst][req.Shard] = append(m.leadAt[t.Dst][req.Shard], leadEv{m.c.Stamp(), req.Term})
 		m.clearFence(t.Dst, req.Shard, req.Term)
 		if t.Src == "coord" {
 			m.checkBecomeLeader(t.Dst, req, m.blResp[t.CallID])
